@@ -92,6 +92,7 @@ template <typename P> T obs_f(P const&)
 void shim_case(Rng& rng, int P, std::vector<std::size_t> const& calls, int integrator)
 {
     std::size_t dims = rng.range(1, 3), channels = rng.range(1, 3);
+    std::size_t coords = rng.range(1, dims);         // multi-channel: the map may produce fewer coordinates than it takes random numbers
     std::size_t per_call = integrator == 2 ? dims + 1 : dims;
     std::size_t k = hep::random_number_usage<T, Eng>();
     // what one canonical number really costs on this engine (measured, not predicted)
@@ -130,7 +131,7 @@ void shim_case(Rng& rng, int P, std::vector<std::size_t> const& calls, int integ
         else
         {
             typedef hep::multi_channel_chkpt_with_rng<Eng, T> chk_t;
-            auto r = hep::mpi_multi_channel(comm, hep::make_multi_channel_integrand<T>(obs_f<hep::multi_channel_point<T>>, dims, map, dims, channels),
+            auto r = hep::mpi_multi_channel(comm, hep::make_multi_channel_integrand<T>(obs_f<hep::multi_channel_point<T>>, dims, map, coords, channels),
                 calls, chk_t(eng, T(), T(0.25)), GoOn());
             logs[rank].final_generator = to_text(r.generator());
             r.serialize(text);
@@ -143,6 +144,7 @@ void shim_case(Rng& rng, int P, std::vector<std::size_t> const& calls, int integ
     info.s("T", tname<T>::get()).s("integrator", names[integrator]).u("world", P).uv("calls", calls).u("dims", dims).u("usage_per_number", k);
     ++ctx().evaluations;
     count("shim_runs");
+    if (integrator == 2) { info.u("map_dimensions", coords); if (coords != dims) count("multi_channel_runs_with_map_dimensions_differing_from_dimensions"); }
     if (misuse) { viol(std::string("library-used-MPI_COMM_WORLD-instead-of-the-communicator-it-was-given:") + names[integrator], J(info).u("uses", misuse)); return; }
     count("shim_collectives", world.collectives);
     if (world.aborted) { viol(std::string("shim:collective-mismatch-or-hang:") + names[integrator], J(info).s("reason", world.abort_reason)); return; }
@@ -197,6 +199,86 @@ void shim_case(Rng& rng, int P, std::vector<std::size_t> const& calls, int integ
     sample(info, 4);
 }
 
+
+// ---- (c) one iteration with more calls than fit into 31 / 32 bits ----------------------------------
+// Nothing is stored per call: every rank keeps its count, the stream position of its first and last call, and whether
+// every step in between was exactly one call's worth.
+struct HugeLog { std::uint64_t count = 0, first = 0, last = 0, bad_steps = 0, usage = 0, end_position = 0; std::string final_generator; };
+
+HugeLog*& my_huge()
+{
+    static thread_local HugeLog* p = 0;
+    return p;
+}
+
+template <typename P> T huge_f(P const&)
+{
+    DrawLog const& d = drawlog();
+    HugeLog& h = *my_huge();
+    std::uint64_t pos = d.draws + d.discarded;
+    if (h.count == 0) h.first = pos;
+    else if (pos - h.last != h.usage) ++h.bad_steps;
+    h.last = pos;
+    ++h.count;
+    return T(1);
+}
+
+void huge_case(int integrator)
+{
+    int const P = 7;
+    // 2^32 + 5 = 2 (mod 7) but 5 when truncated to 32 bits; 2^31 + 6 = 1 (mod 7) but negative as an int
+    std::uint64_t total = integrator == 0 ? (std::uint64_t(1) << 32) + 5 : (std::uint64_t(1) << 31) + 6;
+    std::size_t dims = 1, channels = 2;
+    std::size_t per_call = integrator == 2 ? dims + 1 : dims;
+    std::uint64_t k = hep::random_number_usage<T, Eng>();
+    std::uint64_t usage = per_call * k;
+    std::vector<HugeLog> logs(P);
+    VfWorld world;
+    PowerMap<T> map;
+    for (std::size_t c = 0; c < channels; ++c) map.a.push_back(T(c));
+    std::vector<std::size_t> calls(1, (std::size_t)total);
+    vf_mpi_run(world, P, 12345, [&](int rank, MPI_Comm comm) {
+        logs[rank].usage = usage;
+        my_huge() = &logs[rank];
+        drawlog() = DrawLog();
+        Eng eng((std::mt19937(777)));
+        if (integrator == 0)
+            logs[rank].final_generator = to_text(hep::mpi_plain(comm, hep::make_integrand<T>(huge_f<hep::mc_point<T>>, dims), calls, hep::plain_chkpt_with_rng<Eng, T>(eng), GoOn()).generator());
+        else if (integrator == 1)
+            logs[rank].final_generator = to_text(hep::mpi_vegas(comm, hep::make_integrand<T>(huge_f<hep::vegas_point<T>>, dims), calls, hep::vegas_chkpt_with_rng<Eng, T>(eng, 4, T(1.5)), GoOn()).generator());
+        else
+            logs[rank].final_generator = to_text(hep::mpi_multi_channel(comm, hep::make_multi_channel_integrand<T>(huge_f<hep::multi_channel_point<T>>, dims, map, dims, channels), calls,
+                hep::multi_channel_chkpt_with_rng<Eng, T>(eng, T(), T(0.25)), GoOn()).generator());
+        logs[rank].end_position = drawlog().draws + drawlog().discarded;
+    });
+    static const char* names[] = {"mpi_plain", "mpi_vegas", "mpi_multi_channel"};
+    J info;
+    info.s("T", tname<T>::get()).s("integrator", names[integrator]).u("world", P).u("calls", total).u("usage_per_call", usage);
+    ++ctx().evaluations;
+    count("huge_runs");
+    count("huge_calls_observed", total);
+    if (world.aborted) { viol(std::string("shim:collective-mismatch-or-hang:") + names[integrator], J(info).s("reason", world.abort_reason)); return; }
+    std::uint64_t offset = 0, sum = 0;
+    for (int r = 0; r < P; ++r)
+    {
+        HugeLog const& h = logs[r];
+        std::uint64_t expect = total / P + (std::uint64_t(r) < total % P ? 1 : 0);
+        J ri = J(info).u("rank", r).u("count", h.count).u("expected_count", expect);
+        if (h.count != expect) { viol(std::string("observed:huge:rank-share:") + names[integrator], ri); return; }
+        if (h.bad_steps) { viol(std::string("observed:huge:steps-inside-share:") + names[integrator], J(ri).u("bad_steps", h.bad_steps)); return; }
+        if (h.count && (h.first != usage * (offset + 1) || h.last != usage * (offset + h.count)))
+        { viol(std::string("observed:share-not-contiguous:") + names[integrator], J(ri).u("first", h.first).u("last", h.last).u("expected_first", usage * (offset + 1))); return; }
+        if (h.end_position != usage * total) { viol(std::string("observed:final-stream-position:") + names[integrator], J(ri).u("end", h.end_position).u("expected", usage * total)); return; }
+        if (h.final_generator != logs[0].final_generator) { viol(std::string("observed:ranks-return-different-generators:") + names[integrator], ri); return; }
+        offset += h.count;
+        sum += h.count;
+        count("rank_shares_observed");
+    }
+    if (sum != total) { viol(std::string("observed:counts-do-not-sum-to-total:") + names[integrator], J(info).u("sum", sum)); return; }
+    nontrivial(mix(hash_str(info.str()), 3));
+    sample(info, 3);
+}
+
 std::vector<int> worlds()
 {
     if (ctx().thorough) { std::vector<int> w; for (int p = 1; p <= 33; ++p) w.push_back(p); return w; }
@@ -205,6 +287,10 @@ std::vector<int> worlds()
 
 } // namespace
 
+#ifdef VF_HUGE
+std::uint64_t vfh_num_cases(bool) { return 3; }
+void vfh_run_case(std::uint64_t idx, Rng&) { huge_case((int)idx); }
+#else
 std::uint64_t vfh_num_cases(bool thorough)
 {
     return 1 + (thorough ? 2000 : 20) + worlds().size() * 3 * (thorough ? 24 : 2);
@@ -227,5 +313,6 @@ void vfh_run_case(std::uint64_t idx, Rng& rng)
     for (std::size_t i = 0; i < n; ++i) calls.push_back(pool[rng.below(pool.size())]);
     shim_case(rng, P, calls, integrator);
 }
+#endif
 
 void vfh_selftest() {}
